@@ -6,6 +6,20 @@ TRY_BRANCH = "core::ops::try_trait::Try::branch"
 FROM_RESIDUAL = "core::ops::try_trait::FromResidual::from_residual"
 
 
+def return_locals(body):
+    """locals whose value is what the function returns: _0 and, after inlining, the return places of helpers whose result is returned
+    as it is (plain moves into _0)"""
+    retl = {0}
+    grew = True
+    while grew:
+        grew = False
+        for i, j, pl, rv, s in body.assigns():
+            if pl["l"] in retl and not pl["p"] and rv["k"] == "use" and rv["op"].get("k") in ("copy", "move") and not rv["op"]["pl"]["p"] and rv["op"]["pl"]["l"] not in retl:
+                retl.add(rv["op"]["pl"]["l"])
+                grew = True
+    return retl
+
+
 def site(x):
     return getattr(x, "span", None) or (x if isinstance(x, str) else "")
 
@@ -67,6 +81,14 @@ def try_edges(body, call):
                 continue
             if t["k"] in ("goto", "drop"):
                 bb = t["target"]
+                continue
+            if t["k"] == "switch" and t.get("std_summary") == "core::option::Option::ok_or" and t.get("targets"):
+                # `opt.ok_or(e)` written out by the inliner: follow the Some arm (dest = Ok(payload)) to the join
+                some_bb = t["targets"][0][1]
+                for s_ in body.blocks[some_bb]["stmts"]:
+                    if s_["k"] == "assign" and s_["rv"]["k"] == "agg" and s_["rv"].get("variant") == "Ok":
+                        locs = locs | {s_["pl"]["l"]}
+                bb = body.term(some_bb).get("target", bb)
                 continue
             break
         if nxt is None:
